@@ -468,60 +468,160 @@ def k_sample(ck, cid):
 # --------------------------------------------------------------------------------------------------------------
 # part C: exact solves with forced basic solutions
 # --------------------------------------------------------------------------------------------------------------
+def gen_ranged_binding(r, nmax):
+    """free (or loosely bounded) columns, ranged rows, objective = a signed combination of the rows: the optimum is finite and
+    the rows with a non-zero weight are non-basic there, binding on the side the sign of the weight selects"""
+    F = Fraction
+    n = r.randint(1, nmax)
+    m = r.randint(1, min(n + 1, nmax))
+    rows, obj = [], [F(0)] * n
+    maxi = r.random() < 0.5
+    for i in range(m):
+        co = {}
+        while not co:
+            co = {j: F(r.choice([-3, -2, -1, 1, 1, 2])) for j in range(n) if r.random() < 0.7}
+        a = F(r.randint(-6, 6))
+        t = r.randrange(6)
+        if t == 0:
+            lhs, rhs = a, a                      # equality
+        elif t == 1:
+            lhs, rhs = a, None
+        else:
+            lhs, rhs = a, a + r.randint(1, 9)    # genuinely ranged
+        w = F(r.choice([-2, -1, 0, 1, 1, 2, 3]))
+        if rhs is None:
+            w = abs(w) if not maxi else -abs(w)  # only the finite side may bind
+        for j, v in co.items():
+            obj[j] += w * v
+        rows.append((lhs, co, rhs))
+    cols = []
+    for j in range(n):
+        t = r.randrange(5)
+        if t <= 2:
+            lo, up = None, None                  # free column
+        elif t == 3:
+            lo, up = F(-50), F(50)
+        else:
+            lo, up = F(-50), None
+        cols.append((obj[j], lo, up))
+    return lpgen.LP(maxi, F(r.choice([0, 0, 3])), cols, rows, "ranged-binding")
+
+
+DEMO_EQTRANS = None
+
+
+def demo_eqtrans():
+    # min 2x+3y, 2 <= x+y <= 10, -1 <= x-y <= 1, x, y free (the optimum binds the first row at its left-hand side)
+    F = Fraction
+    return lpgen.LP(False, F(0), [(F(2), None, None), (F(3), None, None)],
+                    [(F(2), {0: F(1), 1: F(1)}, F(10)), (F(-1), {0: F(1), 1: F(-1)}, F(1))], "demo-eqtrans")
+
+
+def exact_options(r):
+    """boolean options of the exact solver; lifting stays off (findings of C03 live there)"""
+    o = {"eqtrans": r.choice([0, 1, 1]), "lifting": 0}
+    if r.random() < 0.3:
+        o["ratfac"] = r.choice([0, 1])
+    if r.random() < 0.3:
+        o["ratrec"] = r.choice([0, 1])
+    if r.random() < 0.3:
+        o["simplifier"] = 0
+    if r.random() < 0.3:
+        o["representation"] = r.choice([1, 2])
+    return o
+
+
 def part_exact(ck, exe):
     r = ck.rng
-    ne, nmax = (60, 7) if ck.tier == "quick" else (1500, 12)
+    ne, nmax = (90, 7) if ck.tier == "quick" else (2500, 12)
     L = []
     htxt = ""
     for k in range(ne):
-        p = lpgen.gen_around_point(r, nmax) if r.random() < 0.8 else lpgen.gen_random(r, nmax)
+        q = r.random()
+        if k == 0:
+            p = demo_eqtrans()
+        elif q < 0.5:
+            p = gen_ranged_binding(r, nmax)
+        elif q < 0.9:
+            p = lpgen.gen_around_point(r, nmax)
+        else:
+            p = lpgen.gen_random(r, nmax)
         cid = "x%d" % k
-        L.append((cid, p))
-        htxt += p.text(cid) + "\nEXACTFB fb\n"
+        opts = [{"eqtrans": 0, "lifting": 0}, {"eqtrans": 1, "lifting": 0}, exact_options(r)]
+        L.append((cid, p, opts))
+        htxt += p.text(cid) + "\n" + "".join("EXACTFB fb%d %s\n" % (i, lpgen.cfg_text(o)) for i, o in enumerate(opts))
     rc, hout, herr = bc.run_harness(ck, exe, htxt, "exact")
     HB = lpgen.blocks(hout)
     if rc != 0:
         ck.violation("crash:exact", "harness crashed in the exact part (rc=%d)" % rc, {"kind": "crash", "stderr": herr[-400:]}, no_input=True)
-    for (cid, p) in L:
-        ls = [l for l in HB.get(cid, []) if l.startswith("EXACTFB ")]
-        if not ls:
-            continue
-        d = bc.kv(ls[0])
-        ck.count("exactfb:" + d["status"])
-        if d["status"] != "OPTIMAL" or "rows" not in d or "x" not in d or "y" not in d:
-            continue
-        rows, cols = bc.stat(d["rows"]), bc.stat(d["cols"])
-        x, s, y, dd = (lpgen.vec_q(d[t]) for t in ("x", "s", "y", "d"))
-        ck.evaluated((cid, "exactfb"), nontrivial=(p.m + p.n >= 3))
-        bad = None
-        # primal: non-basic variables sit where their status says, slacks are the activities
-        for j, (o, lo, up) in enumerate(p.cols):
-            c = cols[j]
-            want = {"L": lo, "U": up, "F": lo, "Z": Fraction(0)}.get(c)
-            if c != "B" and (want is None or x[j] != want):
-                bad = "column %d has status %s but primal value %s" % (j, c, x[j])
-        for i, (lhs, co, rhs) in enumerate(p.rows):
-            act = p.activity(i, x)
-            if act != s[i]:
-                bad = "slack %d is %s, activity %s" % (i, s[i], act)
-            c = rows[i]
-            want = {"L": lhs, "U": rhs, "F": lhs, "Z": Fraction(0)}.get(c)
-            if c != "B" and (want is None or act != want):
-                bad = "row %d has status %s but activity %s" % (i, c, act)
-            if c == "B" and y[i] != 0:
-                bad = "row %d is basic but its dual multiplier is %s" % (i, y[i])
-        for j, (o, lo, up) in enumerate(p.cols):
-            rc_ = o - sum((p.rows[i][1].get(j, 0) * y[i] for i in range(p.m)), Fraction(0))
-            if rc_ != dd[j]:
-                bad = "reduced cost %d is %s, c - A^T y gives %s" % (j, dd[j], rc_)
-            if cols[j] == "B" and rc_ != 0:
-                bad = "column %d is basic but its reduced cost is %s" % (j, rc_)
-        nb = rows.count("B") + cols.count("B")
-        if nb != p.m:
-            bad = "%d basic variables for %d rows" % (nb, p.m)
-        if bad:
-            ck.violation("forcebasic-not-basic-solution", "exact solve with forced basic solutions: " + bad,
-                         {"lp": p.text(cid), "lp_format": p.lp_format(), "observed": d})
+    for (cid, p, opts) in L:
+        for l in HB.get(cid, []):
+            if not l.startswith("EXACTFB "):
+                continue
+            d = bc.kv(l)
+            o = opts[int(d["_id"][2:])]
+            otag = "eqtrans=%d" % o.get("eqtrans", 0)
+            ck.count("exactfb:%s:%s" % (otag, d["status"]))
+            ck.count("exactfb:family:" + p.family)
+            if d["status"] != "OPTIMAL" or "rows" not in d or "x" not in d or "y" not in d:
+                continue
+            rows, cols = bc.stat(d["rows"]), bc.stat(d["cols"])
+            x, s, y, dd = (lpgen.vec_q(d[t]) for t in ("x", "s", "y", "d"))
+            ck.evaluated((cid, "exactfb", lpgen.cfg_text(o)), nontrivial=(p.m + p.n >= 3))
+            bad, clause = None, None
+            # (1) every non-basic column / row sits exactly on the bound its status names
+            for j, (oj, lo, up) in enumerate(p.cols):
+                c = cols[j]
+                if c == "B":
+                    continue
+                ck.count("exactfb:nonbasic-col:" + c)
+                want = {"L": lo, "U": up, "F": lo, "Z": Fraction(0)}.get(c)
+                if want is None or x[j] != want or (c == "F" and lo != up):
+                    bad, clause = "column %d has status %s (bounds %s..%s) but the exact primal value is %s" % (j, c, lo, up, x[j]), "col-status"
+            for i, (lhs, co, rhs) in enumerate(p.rows):
+                act = p.activity(i, x)
+                if act != s[i]:
+                    bad, clause = "slack %d is %s, activity %s" % (i, s[i], act), "slack"
+                c = rows[i]
+                if c == "B":
+                    if y[i] != 0:
+                        bad, clause = "row %d is basic but its dual multiplier is %s" % (i, y[i]), "basic-dual"
+                    continue
+                ranged = lhs is not None and rhs is not None and lhs != rhs
+                ck.count("exactfb:nonbasic-row:%s:%s" % (c, "ranged" if ranged else "other"))
+                want = {"L": lhs, "U": rhs, "F": lhs, "Z": Fraction(0)}.get(c)
+                if want is None or act != want or (c == "F" and lhs != rhs):
+                    bad, clause = "row %d has status %s (sides %s..%s) but the exact activity is %s" % (i, c, lhs, rhs, act), \
+                        "row-status:%s" % ("ranged" if ranged else "other")
+            # (2) the basic-solution equations of the dual side
+            for j, (oj, lo, up) in enumerate(p.cols):
+                rc_ = oj - sum((p.rows[i][1].get(j, 0) * y[i] for i in range(p.m)), Fraction(0))
+                if rc_ != dd[j]:
+                    bad, clause = "reduced cost %d is %s, c - A^T y gives %s" % (j, dd[j], rc_), "redcost"
+                if cols[j] == "B" and rc_ != 0:
+                    bad, clause = "column %d is basic but its reduced cost is %s" % (j, rc_), "basic-redcost"
+            nb = rows.count("B") + cols.count("B")
+            if nb != p.m:
+                bad, clause = "%d basic variables for %d rows" % (nb, p.m), "count"
+            elif bc.det(basis_matrix_of(p, rows, cols)) == 0:
+                bad, clause = "the returned basis is singular", "singular"
+            if bad:
+                ck.violation("forcebasic-not-basic-solution:%s:%s" % (clause, otag),
+                             "exact solve with forced basic solutions (%s): %s; basis rows=%s cols=%s" % (lpgen.cfg_text(o), bad, rows, cols),
+                             {"lp": p.text(cid), "lp_format": p.lp_format(), "options": o, "observed": d})
+        if cid == "x0":
+            ck.sample({"part": "exact forced-basic", "lp": p.text(cid), "options": opts})
+
+
+def basis_matrix_of(p, rows, cols):
+    M = []
+    for i, c in enumerate(rows):
+        if c == "B":
+            M.append([Fraction(1 if k == i else 0) for k in range(p.m)])
+    for j, c in enumerate(cols):
+        if c == "B":
+            M.append([Fraction(p.rows[k][1].get(j, 0)) for k in range(p.m)])
+    return M
 
 
 def main():
@@ -535,7 +635,7 @@ def main():
     ck.cov["rule"] = ("(a) every status array over {ON_UPPER,ON_LOWER,FIXED,ZERO,BASIC} (plus UNDEFINED on a few) of small LPs with rows+columns <= %d, in three "
                       "storage branches (column representation, row representation, LP outside the solver): one evaluation per (LP, branch, array), compared line by "
                       "line with the extracted model; (b) histories on LPs up to %d rows/columns under sampled configurations (polishing off): one evaluation per "
-                      "point at which the basis is dumped; (c) exact forced-basic solves. non-trivial: rows+columns >= 2 (a) / >= 3 (b, c)" % (
+                      "point at which the basis is dumped; (c) exact forced-basic solves under eqtrans off/on and sampled ratfac/ratrec/simplifier/representation (lifting off), incl. a family with free columns and ranged rows that are non-basic at the optimum: one evaluation per (LP, option set). non-trivial: rows+columns >= 2 (a) / >= 3 (b, c)" % (
                           6 if ck.tier == "quick" else 8, 9 if ck.tier == "quick" else 16))
     ck.cov["trusted_base"] = ["Coq 8.16.1 kernel; theorems of Properties_C04.v closed under the global context",
                               "extraction (ExtrOcamlBasic) + extract/C04/driver.ml",
